@@ -140,7 +140,7 @@ func eval(cs Case, x *fw.Rec) {
 	}
 	fullConns, fullPeers, err := mk("", "txt").ConnlistFromResourceInfos(infos)
 	if err != nil {
-		if strings.Contains(err.Error(), "cannot convert named port for an IP destination") {
+		if wm.IsNamedPortOnIPErr(err) {
 			x.Count("skipped_documented_named_port_error", 1) // documented deviation (C01): such inputs have no report to filter
 			return
 		}
